@@ -27,7 +27,14 @@ def mk_query(prog, doms, classes=None, quant="an", **kw):
     used = q.pop("_used")
     q["vars"] = [q["vars"][i - 1] for i in used]
     q["varkeys"] = used          # identity of each variable in the declaration list (for sharing between queries)
+    if "declare" in kw and kw["declare"] == "random":
+        order = list(range(1, len(q["vars"]) + 1))
+        _DECL_RNG.shuffle(order)
+        q["declare"] = order
     return q
+
+
+_DECL_RNG = random.Random(12345)
 
 
 def drain_ev(qi=1, eqto=0, eqoff=0, eqbag=0):
@@ -39,6 +46,46 @@ def domain_size(q):
     for v in q["vars"]:
         n *= len(v["dom"])
     return n
+
+
+def cache_index_findings(run, cases):
+    """Which of the rejected query-family executions are instances of the open finding F2 (wrong rows with caching
+    enabled, caused by the incomplete descent of IndexedCache.retrieve, F1)?  Call-site scoping, decided by TLC:
+    (a) the same case with caching disabled throughout is accepted by TraceQuery, and
+    (b) re-executed with every operator-cache insert/retrieve traced, at least one retrieval of that very execution
+        is rejected by the reference store (TraceIndex, Judge = ref) with clause retrieve.missing, and no retrieval
+        or check is rejected in any other way.
+    Returns (finding, set of covered case ids)."""
+    f = next((x for x in load_findings() if x["id"] == "F2"), None)
+    cases = [c for c in cases if c.get("family", "query") == "query"]
+    if f is None or not cases:
+        return f, set()
+    offs = []
+    for c in cases:
+        off = copy.deepcopy(c)
+        off["evs"] = [{"op": "cfg", "caching": False}] + \
+                     [dict(e, caching=False) if e["op"] == "cfg" else
+                      dict(e, **{k: e[k] + 1 for k in ("eqto", "eqbag") if e.get(k, 0) > 0}) for e in off["evs"]]
+        offs.append(off)
+    n0 = run.cases
+    t_off = run.replay(offs)
+    ok_off = {t["id"] for t in t_off if "build_exc" not in t} - \
+        set(run.validate("TraceQuery", t_off, strip=("build_exc", "build_tb", "family"), count=False))
+    cand = [dict(copy.deepcopy(c), _trace_index=True) for c in cases if c["id"] in ok_off]
+    t_tr = run.replay(cand) if cand else []
+    run.cases = n0                      # re-executions for classification are not counted as cases
+    groups, owner = {}, {}
+    for t in t_tr:
+        for it in t.get("index_traces", []):
+            it["id"] = len(owner) + 1
+            owner[it["id"]] = t["id"]
+            groups.setdefault((it["nkeys"], it["nvals"]), []).append(it)
+    missing, other = set(), set()
+    for (nk, nv), ts in groups.items():
+        rej = run.validate_with("TraceIndex", ts, dict(NKeys=nk, NVals=nv, PreferWildcard=True, Judge="ref"), count=False)
+        for tid, rs in rej.items():
+            (missing if rs[0]["clause"] == "retrieve.missing" else other).add(owner[tid])
+    return f, missing - other
 
 
 class QueryCheck:
@@ -79,11 +126,14 @@ class QueryCheck:
                 if len(run.samples) < 3 and key is not None:
                     run.samples.append({"case": {k2: v for k2, v in by_id[t["id"]].items() if not k2.startswith("_")},
                                         "observed": t["evs"]})
+            tr_by_id = {t["id"]: t for t in traces}
+            f2, covered = (None, set()) if classify else cache_index_findings(run, [by_id[tid] for tid in rej])
             for tid, rs in rej.items():
-                t = next(x for x in traces if x["id"] == tid)
-                finding = classify(by_id[tid], t, rs) if classify else None
+                t = tr_by_id[tid]
+                finding = classify(by_id[tid], t, rs) if classify else (f2 if tid in covered else None)
                 if finding is not None:
                     run.known_finding(finding, f"case {tid}: " + rs[0]["clause"])
+                    run.extra["known_finding_cases"] = run.extra.get("known_finding_cases", 0) + 1
                 else:
                     run.violation(by_id[tid], t, rs)
         self.cases = []
@@ -179,7 +229,7 @@ def check_C02(tier, seed):
         for p in progs:
             for _ in range(1 if quick else 2):
                 W, doms = _world_and_doms(rng, nv, quick)
-                qc.add(W, [mk_query(p, doms)], [drain_ev()])
+                qc.add(W, [mk_query(p, doms, declare="random")], [drain_ev()])
     qc.execute(_nontrivial_rows)
     return run.finish()
 
@@ -629,9 +679,15 @@ def check_C05(tier, seed, extra_programs=None):
         elif len(progs) > 30000:
             progs = rng.sample(progs, 30000)
             run.exhaustive = False
+        if nv == 3:
+            # conditions on three independent variables combined by and_/or_: partial bindings in the operator caches
+            extra = run.export("GenQuery", "G1x-bfs", "PROG", constants=dict(G="G1x", NV=3, LeafLimit=6, MaxLeaves=3, MaxNot=1,
+                                                                             NeedNot=False), invariants=("Export", "WellFormed"))
+            extra = [p for p in extra if len(normalize(dict(p, vars=[]), 3)["_used"]) == 3]
+            progs += rng.sample(extra, min(len(extra), 600 if quick else 20000))
         for p in progs:
             W, doms = _world_and_doms(rng, nv, quick)
-            q = mk_query(p, doms)
+            q = mk_query(p, doms, declare="random")
             qc.add(W, [q, copy.deepcopy(q)], _c05_events())
     for (W, q) in (extra_programs or []):
         qc.add(W, [q, copy.deepcopy(q)], _c05_events())
